@@ -107,6 +107,28 @@ func TestAdders(t *testing.T) {
 	}
 }
 
+// fresh striped adders, many goroutines from the first update on: table creation, cell attachment and every growth step happen under
+// contention in each round (one long-lived adder grows its table once and for all)
+func TestFreshAdders(t *testing.T) {
+	for r := 0; r < rounds()*2; r++ {
+		a := adder.NewLongAdder(adder.JDKAdderType)
+		f := adder.NewFloat64Adder(adder.JDKF64AdderType)
+		par(12, func(i int) {
+			for k := 0; k < 60; k++ {
+				a.Add(int64(i + 1))
+				f.Add(float64(i + 1))
+				if k%16 == 5 {
+					a.Sum()
+					f.Sum()
+				}
+			}
+		})
+		if a.Sum() != 60*78 {
+			t.Errorf("fresh adder round %d: Sum = %d, want %d", r, a.Sum(), 60*78)
+		}
+	}
+}
+
 type lst struct {
 	mu sync.Mutex
 	n  int
